@@ -83,6 +83,24 @@ func corpus(g *gen) {
 		reqSpec{lines: P("X-A", "1"), query: P("A", "2", "a", "1")},
 		reqSpec{query: P("A", "2")},
 		reqSpec{query: P("a", "1", "B", "3")})
+	// the empty name: a backend list [""] declares a list that allows no real header (the documented
+	// way to block every header); "" in a query list matches only the parameter with the empty name
+	for _, l := range [][]string{L(""), L("", ""), L(" "), L("", "X-A"), L(" ", "")} {
+		var q []string
+		for _, x := range l {
+			if x == "X-A" {
+				x = "a"
+			}
+			q = append(q, x)
+		}
+		each(cfgSpec{epH: L("*"), epQ: L("*"), bes: []beSpec{{h: l, q: q}, {}}},
+			reqSpec{lines: P("X-A", "1", "Cookie", "session=secret"), query: P("a", "1", "", "empty-name", "y", "2")},
+			reqSpec{query: P(" ", "blank-name", "", "e1", "", "e2")},
+			reqSpec{lines: P("Authorization", "Bearer t")})
+		each(cfgSpec{epH: l, epQ: q, bes: []beSpec{{}, {h: L("X-A"), q: L("a")}}},
+			reqSpec{lines: P("X-A", "1", "Content-Type", "text/plain"), query: P("a", "1", "", "empty-name", " ", "blank")},
+			reqSpec{lines: P("Cookie", "c")})
+	}
 	// static query shares a key with a forwarded parameter; reserved characters; empty values
 	each(cfgSpec{epQ: L("a", "k&=", "e"), bes: []beSpec{{static: "a=0&s=x+y&a=%26"}}},
 		reqSpec{query: P("a", "1", "k&=", "v&=?#", "e", "", "e", "", "a", " 2")})
@@ -119,6 +137,8 @@ func hname(sym string, v int) string {
 		return []string{"X-B", "X-b"}[v%2]
 	case "C":
 		return []string{"Cookie", "cookie", "COOKIE"}[v%3]
+	case "E":
+		return ""
 	}
 	return sym
 }
@@ -127,7 +147,19 @@ func qname(sym string) string {
 	if sym == "*" {
 		return sym
 	}
+	if sym == "E" {
+		return ""
+	}
 	return strings.ToLower(sym)
+}
+
+func hasSym(l []string, sym string) bool {
+	for _, x := range l {
+		if x == sym {
+			return true
+		}
+	}
+	return false
 }
 
 func mapList(l []string, f func(string) string) []string {
@@ -156,8 +188,16 @@ func exhaustive(g *gen) {
 			epH: mapList(ep, func(s string) string { return hname(s, v) }), epQ: mapList(ep, qname),
 			bes: []beSpec{{h: mapList(be, func(s string) string { return hname(s, v+1) }), q: mapList(be, qname)}}}
 		var rs []reqSpec
+		withE := hasSym(ep, "E") || hasSym(be, "E")
 		for j, s := range reqs {
+			if withE && j != 0 && j != 1 && j != 3 && j != 4 && j != 7 {
+				continue // lists with the empty name: 5 of the 8 client subsets
+			}
 			var rq reqSpec
+			if withE && j%2 == 1 {
+				// a client can send a parameter with the empty name (?=v); there is no empty header name
+				rq.query = append(rq.query, [2]string{"", "qE"})
+			}
 			for _, x := range s {
 				rq.lines = append(rq.lines, [2]string{hname(x, v+j), "h" + x})
 				rq.query = append(rq.query, [2]string{qname(x), "q" + x})
@@ -167,7 +207,7 @@ func exhaustive(g *gen) {
 		g.run("exhaustive", cs, rs)
 		n++
 	}
-	ls := lists([]string{"A", "B", "*"}, 2)
+	ls := lists([]string{"A", "B", "*", "E"}, 2) // E = the empty name ""
 	for _, ep := range ls {
 		for _, be := range ls {
 			if g.cfg.Thorough() {
@@ -202,9 +242,9 @@ func exhaustive(g *gen) {
 // ---- structured random ------------------------------------------------------------------
 
 var headerPool = []string{"X-A", "X-B", "X-C", "Cookie", "Authorization", "Content-Type", "User-Agent", "Accept",
-	"X-Forwarded-For", "X-Forwarded-Host", "X-Forwarded-Via", "X-Real-Ip", "X-Custom-Id", "Etag", "X_Under", "x.dot", "X-A-B-c", "X-*", "*"}
+	"X-Forwarded-For", "X-Forwarded-Host", "X-Forwarded-Via", "X-Real-Ip", "X-Custom-Id", "Etag", "X_Under", "x.dot", "X-A-B-c", "X-*", "*", "", " "}
 var headerValues = []string{"v1", "v2", "a, b", "text/plain", "Mozilla/5.0 (X11)", "1.2.3.4", "", "k=v; x=y", "\xc3\xa9t\xc3\xa9", "*"}
-var queryKeys = []string{"a", "b", "c", "A", "id", "q", "x y", "k&=", "\xc3\xa4", "*", "", "a.b", "X-A", "a*"}
+var queryKeys = []string{"a", "b", "c", "A", "id", "q", "x y", "k&=", "\xc3\xa4", "*", "", "a.b", "X-A", "a*", " ", ""}
 var queryValues = []string{"1", "2", "", "x y", "a&b=c", "%41", "\xc3\xbc", "+", "v", "#?/"}
 var statics = []string{"", "", "", "s=1", "a=0", "a=0&s=1&a=9", "x+y=1%262", "*=7", "b=&c"}
 
